@@ -8,6 +8,8 @@ import (
 
 	"github.com/bronlabs/bron-crypto/pkg/base/algebra"
 	ds "github.com/bronlabs/bron-crypto/pkg/base/datastructures"
+	"github.com/bronlabs/bron-crypto/pkg/base/serde"
+	"github.com/bronlabs/bron-crypto/pkg/base/utils"
 	"github.com/bronlabs/bron-crypto/pkg/commitments/hashcom"
 	"github.com/bronlabs/bron-crypto/pkg/mpc/session"
 	"github.com/bronlabs/bron-crypto/pkg/mpc/sharing"
@@ -30,6 +32,29 @@ type (
 		Sig schnorrlike.Signature[GE, S] `cbor:"signature"`
 	}
 )
+
+type partialSignatureDTO[
+	GE algebra.PrimeGroupElement[GE, S],
+	S algebra.PrimeFieldElement[S],
+] struct {
+	Sig *schnorrlike.Signature[GE, S] `cbor:"signature"`
+}
+
+// UnmarshalCBOR deserialises a partial signature and rejects one with a missing component.
+func (p *PartialSignature[GE, S]) UnmarshalCBOR(data []byte) error {
+	dto, err := serde.UnmarshalCBOR[*partialSignatureDTO[GE, S]](data)
+	if err != nil {
+		return errs.Wrap(err).WithMessage("cannot unmarshal partial signature")
+	}
+	if dto == nil || dto.Sig == nil {
+		return schnorr.ErrInvalidArgument.WithMessage("partial signature is nil")
+	}
+	if utils.IsNil(dto.Sig.E) || utils.IsNil(dto.Sig.R) || utils.IsNil(dto.Sig.S) {
+		return schnorr.ErrInvalidArgument.WithMessage("partial signature is incomplete")
+	}
+	p.Sig = *dto.Sig
+	return nil
+}
 
 // Lindell22 is proven to be secure in standard model only if a UC-secure commitment scheme is used.
 // Due to CF01, no such scheme can exist without a trusted setup/interaction. So we use a hash-based
